@@ -360,6 +360,10 @@ func runC01(args []string) int {
 			obsQ = "None"
 			rep.hist("prom-side-not-compared:binary-tag")
 		}
+		if hasNullTagText(docs) {
+			obsQ = "None"
+			rep.hist("prom-side-not-compared:null-tag-with-text")
+		}
 		if hasAliasOrMerge(docs) {
 			rep.hist("has:alias-or-merge")
 		}
